@@ -33,7 +33,7 @@ def spin_shapes(rng, n):
         ap = rng.choice(appends)
         pat = rng.choice(pats)
         hd = rng.choice(handlers)
-        kind = rng.randrange(14)
+        kind = rng.randrange(17)
         if kind == 0:
             body = f'"x"; loop {{ try {{ {ap} {pat}; }} catch (outofspace) {{ {hd} }} }}'
         elif kind == 1:
@@ -61,15 +61,37 @@ def spin_shapes(rng, n):
             body = f'optional {{ "#"; }} loop {{ case {{ {pat} -> {{ i = [i + 1]; }} else -> {{ i = 0; }} }} }}'
         elif kind == 12:
             body = f'try {{ "xy"; }} catch (nomatch) {{ }} loop {{ try {{ {pat}; }} catch (nomatch) {{ {rng.choice(["", "i = 1;"])} }} }}'
+        elif kind >= 14:
+            # yields next to matches that end by look-ahead or start the next iteration: at -O3 the yield is merged onto a
+            # consuming transition; a yield that returns without advancing the cursor is returned for ever
+            decl = decl + "yieldcode GOT;\nyieldcode ALSO;\n"
+            pre = rng.choice(['/[^y]*/;', '/a*/;', 'optional { "b"; }', ""])
+            post = rng.choice(["i = [i + 1];", "h();", "", "yield ALSO;", f"{ap}"])
+            if kind == 14:
+                body = f'loop {{ {pre} "y"; yield GOT; {post} }}'
+            elif kind == 15:
+                body = f'loop {{ {pre} {pat}; yield GOT; {post} }}'
+            else:
+                body = f'loop {{ try {{ {pre} "y"; {ap} yield GOT; }} catch (outofspace) {{ yield ALSO; wait "q"; }} }}'
         else:
             # a conditional break of the inner loop lands at the end of the outer loop's body: when nothing there
             # consumes, control is back at the same condition with the same data
             tail = rng.choice(["", "h();", '"q";', f"{pat};"])
             body = f'loop a {{ loop b {{ if i == 0 {{ break b; }} {pat}; }} {tail} }}'
         src = decl + "parser {\n  " + body + "\n}\n"
-        out.append({"name": f"spin-{k}", "src": src, "feats": {}, "args": [], "origin": "spin-shape", "shape": kind,
-                    "level": rng.choice(["-O0", "-O1", "-O3"])})
+        out.append({"name": f"spin-{k}", "src": src, "feats": {}, "args": ["-fyield-support"] if kind >= 14 else [],
+                    "origin": "spin-shape", "shape": kind,
+                    "level": rng.choice(["-O3", "-O3", "-O1"]) if kind >= 14 else rng.choice(["-O0", "-O1", "-O3"])})
     return out
+
+
+def yield_stall(lines):
+    """The driver re-invokes feed after a yield code at most 4n+8 times: a trace that ends in eight identical
+    yield lines (same code, same cursor) is a parser that yields for ever without consuming."""
+    feeds = [l.split(" | ")[0] for l in lines if l.startswith("feed ")]
+    if len(feeds) >= 8 and feeds[-1].split()[1].startswith("YIELD_") and len(set(feeds[-8:])) == 1:
+        return feeds[-1]
+    return None
 
 
 def work(job):
@@ -121,6 +143,11 @@ def work(job):
             ops = [o.replace("feedy:", "feed:") for o in ops]
         cl, status, err = c.run_c(ops, timeout=8)
         res["runs"] += 1
+        stall = yield_stall(cl)
+        if status == "ok" and stall:
+            res["viol"].append({"kind": "yields-for-ever", "input": data.hex(), "ops": ops, "args": c.args,
+                                "binary_tail": cl[-3:], "stalled_at": stall, "through_outofspace_redirect": False})
+            break
         if status == "timeout":
             ml = c.run_model(ops, timeout=20)
             res["viol"].append({"kind": "does-not-return", "input": data.hex(), "ops": ops, "args": c.args,
@@ -173,7 +200,8 @@ def main():
             if prog.get("shape") == 13 and r["candidate"] and r["candidate"].get("only_conditions"):
                 # the recorded finding: every move of the cycle is the same data condition of a conditional break
                 key = "spin-through-conditional-break"
-            ck.report(key, f"{r['name']}: feed does not return on input {v['input']} (binary killed by the alarm)",
+            ck.report(key, f"{r['name']}: " + ("feed returns the same yield code for ever without consuming" if v["kind"] == "yields-for-ever"
+                                               else "feed does not return") + f" on input {v['input']}",
                       {"program": prog["src"], "candidate": r["candidate"], **v})
         if r["candidate"]:
             st["candidates"] += 1
